@@ -280,9 +280,7 @@ class ReachDefs:
                         if not _is_local_ref(a):
                             continue
                         if pts is None or i >= len(pts):
-                            if a.get("t") in FLOAT_TYPES or a.get("t") in INT_TYPES:
-                                continue          # unknown callee: scalars assumed by value
-                            continue
+                            continue          # callee without prototype in the facts: assumed by value
                         if _mutable_ref(pts[i]):
                             add(e, a["ref"]["decl"], "out", n, i)
         # dataflow
@@ -823,6 +821,7 @@ class HandlerModel:
         self.closures = {}
         self.modwrap = modwrap
         self._touch = {}
+        self._children = {}       # (caller activation, call node) -> callee activation
         sym = Sym(fx, entry, None, modwrap)
         self.final = self.run(entry, sym, {(None, None, None, ())})
 
@@ -1007,6 +1006,9 @@ class HandlerModel:
             return None
         if k == "CompoundAssignOperator" and c:
             lhs = c[0]
+            if self.is_field(lhs, "rhs"):
+                raise AnalysisBroken("R-UNIT/R-WRAP: compound update of %s in %s is not modelled"
+                                     % (self.f["rhs"], fn.key))
             if self.is_field(lhs, "size"):
                 loop_check()
                 v = sym.poly(c[1]).numeric()
@@ -1034,7 +1036,11 @@ class HandlerModel:
                 for p, a in zip(cal.params, call_args(n)):
                     if "decl" in p:
                         env[p["decl"]] = (a, sym)
-                return self.run(cal, sym.child(cal, env, n), sts)
+                ck = (id(sym), n["id"])
+                ch = self._children.get(ck)
+                if ch is None:
+                    ch = self._children[ck] = sym.child(cal, env, n)
+                return self.run(cal, ch, sts)
         return None
 
     def _inc(self, fn, n, st):
@@ -1952,7 +1958,8 @@ def rule_wrap(ctx):
     for sig in tab:
         if sig not in seen:
             ctx.note("R-WRAP W2: table entry %s has no wrap loop any more (rewritten or removed)" % sig)
-    ctx.floor(rule, 10, len(sites), "functions with wrap loops")
+    # 14 on the tree as read; the floor leaves room for the reported sites to be rewritten with fmod
+    ctx.floor(rule, 6, len(sites), "functions with wrap loops")
     return sites
 
 
